@@ -16,10 +16,11 @@ LEVEL_TEXT = ("Lean theorems: C07_interleave (for every number of connections an
               "(every delivered line, including lines flushed from the before-context ring, carries its true running number), "
               "C07_record_roundtrip; tied to the code end to end: real dserver processes with distinct host names, the real dcat client over "
               "SSH, several files per server through a glob; every output line is parsed as one REMOTE record and each source's record "
-              "sequence is compared with the model's")
+              "sequence is compared with the model's; the file identifier: C07_globid_value, C07_globid_distinct (two paths of one cleaned glob with the same identifier are the same path; after fix 6338cfb) and tie G C07_generated_globid_refines_model (makeGlobID as translated from the working tree computes the model's identifier); further ops: c07.pipe (several real readers into one real server handler, every record checked against its line), c07.globid (non-canonical glob spellings through a real session), c07.pause (the stdout logger paused and resumed under load)")
 TRUSTED = ["Lean 4 kernel", "axioms: propext, Quot.sound, Classical.choice (at most)", "overlay harness (cluster of real dserver processes) + dtmodel driver + this diff",
            "modelled not verified: the stdout logger's mutex makes a message's print atomic (the model appends whole messages), fmt.Print, SSH transport, "
-           "goroutine scheduling of readers and connections (the theorem quantifies over all chunk schedules; the run samples some)"]
+           "goroutine scheduling of readers and connections (the theorem quantifies over all chunk schedules; the run samples some)",
+           "the Go-to-Lean translator extract/translate.go and its prelude Model/GoRT.lean (int/uint64/float64 as Int, strings as bytes, maps as association lists; translated and real functions run on the same scripts on every run)"]
 ASSUMPTIONS = ["host names and file identifiers contain no '|', newline or delimiter byte"]
 RULE = ("scripted chunk schedules (c07.sched): 1..4 real client handlers, each connection's byte stream made of REMOTE records with contents "
         "from a few bytes to 200 KB (beyond the 32 KiB transport read and beyond 64 KiB), hidden messages, delimiter- and newline-terminated "
